@@ -899,7 +899,7 @@ func (f *frame) loopModPats(li *loopInfo, pre *State) []modPat {
 			case *ssa.Call:
 				pats = append(pats, f.callModPats(x.Common(), li, all, outside)...)
 			case *ssa.Defer:
-				all("defer inside loop")
+				// registering a deferred call writes nothing; it runs at function exit
 			case *ssa.Go:
 				all("go statement inside loop")
 			case *ssa.RunDefers:
